@@ -71,6 +71,9 @@ impl Asset {
 //%%sig
     ensures
         /*[C02,C04,C07 asset.into_msg.pay]*/ r is Ok ==> pay_msg(self.info, self.amount, recipient.0@, r->Ok_0),
+//%if A
+        /*[C20 asset.into_msg.succeeds]*/ r is Ok,
+//%endif
 //%%head
         broadcast use axiom_to_string_string;
 //%end
@@ -103,6 +106,9 @@ impl AssetInfo {
 //%%sig
     ensures
         /*[C02,C07,C11 assetinfo.query_pool]*/ r is Ok ==> r->Ok_0.0 as nat == balance_of(querier.world(), *self, pool_addr.0@),
+//%if A
+        /*[C20 assetinfo.query_pool.succeeds]*/ r is Ok,
+//%endif
 //%%head
         broadcast use axiom_to_string_string;
 //%end
@@ -136,11 +142,22 @@ pub open spec fn raw_of(n: AssetInfo, raw: AssetInfoRaw) -> bool {
         _ => false,
     }
 }
+// the normal form is a function of the raw identifier (humanize is deterministic)
+pub open spec fn normal_exact(n: AssetInfo, raw: AssetInfoRaw) -> bool {
+    match (n, raw) {
+        (AssetInfo::NativeToken { denom: a }, AssetInfoRaw::NativeToken { denom: b }) => a@ == b@,
+        (AssetInfo::Token { contract_addr: a }, AssetInfoRaw::Token { contract_addr: b }) => a@ == human_of(b.0@),
+        _ => false,
+    }
+}
 impl AssetInfoRaw {
 //%fn packages/haloswap/src/asset.rs | impl AssetInfoRaw | to_normal
 //%%sig
     ensures
-        r is Ok ==> raw_of(r->Ok_0, *self),
+        r is Ok ==> raw_of(r->Ok_0, *self) && normal_exact(r->Ok_0, *self),
+//%if A
+        /*[C20 raw.to_normal.succeeds]*/ r is Ok,
+//%endif
 //%%head
         broadcast use axiom_to_string_string;
 //%end
@@ -156,7 +173,11 @@ impl PairInfoRaw {
         /*[C02,C04,C05 pools.query]*/ r is Ok ==> ({ let p = r->Ok_0;
             raw_of(p[0].info, self.asset_infos[0]) && raw_of(p[1].info, self.asset_infos[1])
             && p[0].amount.0 as nat == balance_of(querier.world(), p[0].info, contract_addr.0@)
-            && p[1].amount.0 as nat == balance_of(querier.world(), p[1].info, contract_addr.0@) }),
+            && p[1].amount.0 as nat == balance_of(querier.world(), p[1].info, contract_addr.0@)
+            && normal_exact(p[0].info, self.asset_infos[0]) && normal_exact(p[1].info, self.asset_infos[1]) }),
+//%if A
+        /*[C20 pools.query.succeeds]*/ r is Ok,
+//%endif
 //%end
 }
 // normal (human readable) form of a registry record
